@@ -360,6 +360,30 @@ func observe(r *core.Run, sc *scenario, canonical bool) (out []obs, permuted boo
 	b, _ = json.Marshal(sc.req)
 	add("Request.MarshalJSON", string(b))
 
+	// the bytes one encoding call returned stay what they were while other objects are encoded
+	{
+		var held [][]byte
+		var copies []string
+		for _, p := range sc.pols {
+			o := p.MarshalCedar()
+			held, copies = append(held, o), append(copies, string(o))
+			if j, err := p.MarshalJSON(); err == nil {
+				held, copies = append(held, j), append(copies, string(j))
+			}
+		}
+		for _, v := range sc.vals {
+			o := v.MarshalCedar()
+			held, copies = append(held, o), append(copies, string(o))
+		}
+		o := ps.MarshalCedar()
+		held, copies = append(held, o), append(copies, string(o))
+		for i := range held {
+			if string(held[i]) != copies[i] && direct == nil {
+				direct = core.Violationf("output-aliased", "output-aliased", "bytes returned by an encoder changed while other objects were encoded: %q, were %q", clip(string(held[i])), clip(copies[i]))
+			}
+		}
+	}
+
 	// encoding the same object again, after it has been through the other encoders, gives the
 	// same bytes (an encoder must not leave traces in what it encodes)
 	for i, p := range sc.pols {
